@@ -175,11 +175,19 @@ func verifyUnit1(l *Loader, pkgPath, key string, fixed map[string]Val, suffix st
 				}
 			}
 		}
-		if len(c.Cases) > 0 {
+		if len(c.Partitions) > 0 {
 			// proof hint: split every postcondition by the case conditions (evaluated at entry)
-			var conds []*Term
-			for _, cc := range c.Cases {
-				conds = append(conds, env.evalBool(cc))
+			var parts [][]*Term
+			for _, chain := range c.Partitions {
+				var cells []*Term
+				var negs []*Term
+				for _, cc := range chain {
+					t := env.evalBool(cc)
+					cells = append(cells, And(append(append([]*Term{}, negs...), t)...))
+					negs = append(negs, Not(t))
+				}
+				cells = append(cells, And(negs...))
+				parts = append(parts, cells)
 			}
 			for _, o := range ex.Obls {
 				if o.Kind != "post" && o.Kind != "lemma" {
@@ -191,10 +199,10 @@ func verifyUnit1(l *Loader, pkgPath, key string, fixed map[string]Val, suffix st
 					cp.Name = o.Name + "@all"
 					base = []*Obl{&cp}
 				}
-				for _, ct := range conds {
+				for _, cells := range parts {
 					var next []*Obl
 					for _, b := range base {
-						for pol, t := range []*Term{ct, Not(ct)} {
+						for pol, t := range cells {
 							nb := *b
 							nb.Assume = append(append([]*Term{}, b.Assume...), t)
 							nb.Name = fmt.Sprintf("%s@case%d", b.Name, pol)
